@@ -62,6 +62,11 @@ def run(chk):
     # diagonal: component coupling inside a blocked / mixed space, and interior facets (macro diagonal)
     add(s5.sample_cases([c for c in cases if c["elem"] in ("vP1", "vP2") and c["term"] in ("divdiv", "cten")], 3 if quick else 20,
                         chk.seed + 5, max_cost=40), {"part": "diagonal"}, "diag")
+    # a mixed-space form whose FIRST coefficient occurs in the off-diagonal blocks only: under part='diagonal' the kernel
+    # must still be fed by the positions of the form as written
+    for k, cl in enumerate(("triangle",) if quick else ("triangle", "tetrahedron")):
+        items.append({"builder": "harness.corpus.realise_thdiv", "th": {"cell": cl, "rule": k, "coef": True}, "seed": chk.seed + 90 + k, "scalar": "float64",
+                      "ninputs": 1, "geom": "affine", "options": {"part": "diagonal"}, "label": f"thdiv/{cl}|diag-coefficient-positions"})
     # history: the same LIST of forms compiled with part='diagonal' first and with the default options afterwards
     # (the second compile must still see the whole form)
     for k, cl in enumerate(("triangle",) if quick else ("triangle", "tetrahedron")):
